@@ -17,7 +17,7 @@ const pkgGov = "ctrlers/gov"
 const pkgProp = "ctrlers/gov/proposal"
 
 func checkC15(w *World, r *Report) {
-	r.Explanation = "Structural clause of C15 (Gv-7: no in-place 256-bit operation writes into a governance parameter object — accessors such as MinValidatorStake() hand out the stored object itself; shared with C06 X-6): (Gv-1) every success path of a proposal validation passes the guards: receiver is the zero address, sender is a current validator, payload type, no duplicate key in the exec-selected overlay, start > current height, min <= period <= max (governance limits), no overflow of start+period, applying height >= end + lazy-applying blocks, at least one option, and parseable options for parameter proposals; (Gv-2) every success path of a vote validation passes: zero receiver, payload type, the proposal exists in the exec-selected overlay, sender is one of its recorded voters, 0 <= choice < number of options, start <= height <= end; (Gv-3) a proposal's voters are the current validators with their current power, its total is their sum, majority = total x 2 / 3, end = start + period, a vote cancels the voter's previous vote before counting the new one with the recorded power; (Gv-4) a proposal leaves voting only when end < height, is frozen only if the top option (descending sort) holds at least the majority power, is applied only when applying height <= height, the winning option is merged with the current parameters, recorded and handed to Commit, which installs it; (Gv-5) MergeGovParams treats every parameter field, and the JSON/proto codecs cover every field; (Gv-6) tally integrity: votes name options by index and the winner is decided once, so GovProposal.MajorOption and the order of GovProposal.Options are written only by the constructor and by updateMajorOption, which is called only through UpdateMajorOption from the freeze scan (after the window has closed); no other function sorts or replaces elements of an option list."
+	r.Explanation = "Structural clause of C15 (Gv-7: no in-place 256-bit operation writes into a governance parameter object — accessors such as MinValidatorStake() hand out the stored object itself; shared with C06 X-6): (Gv-1) every success path of a proposal validation passes the guards: receiver is the zero address, sender is a current validator, payload type, no duplicate key in the exec-selected overlay, start > current height, min <= period <= max (governance limits), no overflow of start+period, applying height >= end + lazy-applying blocks, at least one option, and parseable options for parameter proposals; (Gv-2) every success path of a vote validation passes: zero receiver, payload type, the proposal exists in the exec-selected overlay, sender is one of its recorded voters, 0 <= choice < number of options, start <= height <= end; (Gv-3) a proposal's voters are the current validators with their current power, its total is their sum, majority = total x 2 / 3, end = start + period, a vote cancels the voter's previous vote before counting the new one with the recorded power; (Gv-4) a proposal leaves voting only when end < height, is frozen only if the top option (descending sort) holds at least the majority power, is applied only when applying height <= height, the winning option is merged with the current parameters, recorded and handed to Commit, which installs it; (Gv-5) MergeGovParams treats every parameter field, and the JSON/proto codecs cover every field; (Gv-6) tally integrity: votes name options by index and the winner is decided once, so GovProposal.MajorOption and the order of GovProposal.Options are written only by the constructor and by updateMajorOption, which is called only through UpdateMajorOption from the freeze scan (after the window has closed); no other function sorts or replaces elements of an option list; (Gv-8) punishment changes a proposal as the block has it so far: the object written back is the overlay's own, not a copy decoded from the committed tree, and the proposals punished are those whose voters contain the address (C01 D-6 stale-copy, C14 J-1)."
 	r.NotCovered = "tallies over vote histories; two proposals applied in one block; JSON parsing details of the option documents; powerOrderVoteOptions ties (two options cannot both reach 2/3)."
 	gv12(w, r)
 	gv3(w, r)
